@@ -85,7 +85,31 @@ def set_kinded(node, fn, module_sets, depth=0):
     return False
 
 
-def check_function(qual, fn, mutables, module_sets, emit, is_entry_like=False):
+def pinned_globals(g, fn, module_tree=None, depth=0):
+    """Is the globals argument of eval() a dict display that pins `__builtins__` to None / {} - written in place, through a local
+    bound once to such a display, or through a module-level constant holding one (writes into module-level objects are R16.1's
+    business)?"""
+    if g is None or depth > 3:
+        return False
+    if isinstance(g, ast.Dict):
+        return any(isinstance(k, ast.Constant) and k.value == '__builtins__' and
+                   ((isinstance(v, ast.Constant) and v.value is None) or (isinstance(v, ast.Dict) and not v.keys))
+                   for k, v in zip(g.keys, g.values))
+    if isinstance(g, ast.Call) and dotted(g.func) == 'dict' and not g.args:
+        return any(k.arg == '__builtins__' and ((isinstance(k.value, ast.Constant) and k.value.value is None) or (isinstance(k.value, ast.Dict) and not k.value.keys))
+                   for k in g.keywords)
+    if isinstance(g, ast.Name):
+        locs, _ = local_names(fn)
+        if g.id in locs:
+            defs = [st.value for st in walk_no_nested(fn) if isinstance(st, ast.Assign) and any(isinstance(t, ast.Name) and t.id == g.id for t in st.targets)]
+            return len(defs) == 1 and pinned_globals(defs[0], fn, module_tree, depth + 1)
+        if module_tree is not None:
+            defs = [st.value for st in module_tree.body if isinstance(st, ast.Assign) and any(isinstance(t, ast.Name) and t.id == g.id for t in st.targets)]
+            return len(defs) == 1 and pinned_globals(defs[0], fn, None, depth + 1)
+    return False
+
+
+def check_function(qual, fn, mutables, module_sets, emit, is_entry_like=False, module_tree=None):
     """emit(rule, node, message)"""
     locs, glob = local_names(fn)
     for n in walk_no_nested(fn):
@@ -171,11 +195,8 @@ def check_function(qual, fn, mutables, module_sets, emit, is_entry_like=False):
             if d == 'os.getcwd':
                 emit('R16.5.cwd', n, 'consults the process working directory')
             if d == 'eval' or d == 'exec':
-                g = n.args[1] if len(n.args) > 1 else None
-                ok = isinstance(g, ast.Dict) and any(isinstance(k, ast.Constant) and k.value == '__builtins__' and
-                                                      ((isinstance(v, ast.Constant) and v.value is None) or (isinstance(v, ast.Dict) and not v.keys))
-                                                      for k, v in zip(g.keys, g.values))
-                if not ok:
-                    emit('R16.6.eval-sandbox', n, 'eval() globals are not a fresh dict that pins __builtins__: user expressions can reach interpreter state')
+                g = n.args[1] if len(n.args) > 1 else next((k.value for k in n.keywords if k.arg == 'globals'), None)
+                if not pinned_globals(g, fn, module_tree):
+                    emit('R16.6.eval-sandbox', n, 'eval() globals are not a dict that pins __builtins__: user expressions can reach interpreter state')
         if isinstance(n, ast.Attribute) and dotted(n) == 'os.environ':
             emit('R16.5.ambient', n, 'reads the process environment')
